@@ -2,7 +2,8 @@
 
 Model: lean/PV/Model/Packet.lean; theorems: lean/PV/Props/C01.lean; driver: lean/Driver/C01.lean.
 Correspondence: toy cipher / AEAD / MAC / compressor (bit-identical in Lean and Python) plugged into two REAL
-Packetizer objects (engines are duck-typed; paramiko.packet.compute_hmac and its os.urandom are patched from outside):
+Packetizer objects (engines are duck-typed; the toy MAC is HMAC over a toy hashlib-style digest class, so the real code
+computes it through Python's hmac module however it calls it; only packet.py's os.urandom is patched from outside):
 random sessions of sends, key / compressor / sequence switches, feeds (a few corrupted), reads under random recv
 fragmentation and timeouts, `__remainder` left from the banner, direct read_all calls (negative sizes included) —
 wire bytes, decoded (cmd, payload, seqno) and error kinds must agree line by line.
@@ -80,7 +81,7 @@ class RealPair:
                 self.pr._initial_kex_done = w[1] == "1"
             elif op == "send":
                 rnd = bytes.fromhex(w[2]) if w[2] != "-" else b""
-                with L.Patched(urandom=lambda n: L.fit_pad(rnd, n), hmac=L.toy_hmac):
+                with L.Patched(urandom=lambda n: L.fit_pad(rnd, n)):
                     self.ps.send_message(self.Message(bytes.fromhex(w[1]) if w[1] != "-" else b""))
                 return hx(self.out_sock.take())
             elif op == "feed":
@@ -89,8 +90,7 @@ class RealPair:
                 self.pr._Packetizer__remainder = bytes.fromhex(w[1]) if w[1] != "-" else b""
             elif op == "read":
                 self.in_sock.sched = L.parse_sched(w[1])
-                with L.Patched(hmac=L.toy_hmac):
-                    cmd, m, retries = L.read_message_retrying(self.pr)
+                cmd, m, retries = L.read_message_retrying(self.pr)
                 return "ok %d %s %d %d" % (cmd, hx(m.asbytes()), m.seqno, retries)
             elif op == "readall":
                 from paramiko.packet import NeedRekeyException
